@@ -309,7 +309,9 @@ func ruleC19(w *World, r *Report) {
 				method = m
 			}
 			for _, ev := range errVals {
-				if ev.err != nil && nilnessEdge(a, b, func(x ssa.Value) bool { return x == ev.err }, false) {
+				// the error tested may be a variable that holds the result of whichever step ran last
+				// (one failure branch for both steps): on this path it is what came in over the edge taken
+				if ev.err != nil && nilnessEdge(a, b, func(x ssa.Value) bool { return x == ev.err || p.resolve(x) == ev.err }, false) {
 					failed = ev.name
 				}
 			}
